@@ -25,6 +25,8 @@
 #include <tbox/flow/actions/repeat_action.h>
 #include <tbox/flow/actions/wrapper_action.h>
 #include <tbox/flow/actions/composite_action.h>
+#include <tbox/flow/action_executor.h>
+#include <map>
 
 using namespace tbox;
 using namespace tbox::flow;
@@ -201,6 +203,31 @@ static std::string snapshot() {
     return s;
 }
 
+static const char *stch(Action::State s);
+// ---- ActionExecutor part: the executor owns (and deletes) the actions; liveness is tracked by the destructors
+static ActionExecutor *xexec = nullptr;
+static std::map<int, Action*> xlive;           // executor action id -> live object
+static int xcount = 0;                          // actions appended so far (ids are 1..xcount)
+static int xpending_id = 0;                     // id the object under construction will get
+struct XDummy : DummyAction { int xid; explicit XDummy(event::Loop &l, int i) : DummyAction(l), xid(i) {} ~XDummy() override { xlive.erase(xid); } };
+struct XFunc : FunctionAction { int xid; XFunc(event::Loop &l, int i, Func &&f) : FunctionAction(l, std::move(f)), xid(i) {} ~XFunc() override { xlive.erase(xid); } };
+static void drop_exec() { delete xexec; xexec = nullptr; xlive.clear(); xcount = 0; }
+static void ensure_exec() {
+    if (xexec) return;
+    xexec = new ActionExecutor;
+    xexec->setActionStartedCallback([](ActionExecutor::ActionId id) { ev("xstarted " + std::to_string(id)); });
+    xexec->setActionFinishedCallback([](ActionExecutor::ActionId id) { ev("xfinished " + std::to_string(id)); });
+    xexec->setAllFinishedCallback([] { ev("xall"); });
+}
+static std::string xsnapshot() {
+    std::string s;
+    for (int i = 1; i <= xcount; ++i) {
+        auto it = xlive.find(i);
+        s += it == xlive.end() ? "x" : stch(it->second->state());
+    }
+    return s.empty() ? "-" : s;
+}
+
 struct Call { int kind; size_t n; char x; };   // 0 start 1 pause 2 resume 3 stop 4 reset 5 emit
 
 static bool parse_call(const std::string &w, Call &c) {
@@ -243,12 +270,54 @@ int main() {
     fdev->initialize(efd, event::FdEvent::kReadEvent, event::Event::Mode::kPersist);
     bool pending = false; std::string pending_rets;
     fdev->setCallback([&](short) {
-        if (pending) { std::cout << "P r=" << pending_rets << " s=" << snapshot() << "\n"; pending = false; }
+        if (pending) {
+            if (xexec) std::cout << "P x r=" << pending_rets << " cur=" << xexec->current() << " st=" << xsnapshot() << "\n";
+            else std::cout << "P r=" << pending_rets << " s=" << snapshot() << "\n";
+            pending = false;
+        }
         std::string line;
-        if (!std::getline(std::cin, line)) { drop_tree(); loop->exitLoop(); return; }
+        if (!std::getline(std::cin, line)) { drop_exec(); drop_tree(); loop->exitLoop(); return; }
         auto w = vh::words(line);
         if (w.empty()) return;
-        if (w[0] == "case") { drop_tree(); std::cout << line << "\n"; return; }
+        if (w[0] == "case") { drop_exec(); drop_tree(); std::cout << line << "\n"; return; }
+        // ---- executor ops (only in a case without a tree)
+        if (w[0][0] == 'x') {
+            uint64_t n, pr;
+            if (root) { std::cout << "bad-op\n"; return; }
+            if (w[0] == "xapp" && w.size() == 3 && (w[1] == "D" || w[1] == "Fs" || w[1] == "Ff" || w[1] == "X") &&
+                vh::to_u64(w[2], pr) && pr <= 2 && xcount < 30) {
+                ensure_exec();
+                int id = ++xcount;
+                Action *a;
+                if (w[1] == "D" || w[1] == "X") {
+                    auto d = new XDummy(*loop, id);
+                    if (w[1] == "X") { d->start(); d->stop(); }      // appended already stopped
+                    a = d;
+                } else {
+                    bool succ = w[1] == "Fs";
+                    a = new XFunc(*loop, id, [succ] { return succ; });
+                }
+                xlive[id] = a;
+                int got = xexec->append(a, (int)pr);
+                pending_rets = std::to_string(got); pending = true;
+            } else if (w[0] == "xcancel" && w.size() == 2 && vh::to_u64(w[1], n) && n >= 1 && n <= 1000 && xexec) {
+                pending_rets = xexec->cancel((int)n) ? "1" : "0"; pending = true;
+            } else if (w[0] == "xcancelcur" && w.size() == 1 && xexec) {
+                pending_rets = xexec->cancelCurrent() ? "1" : "0"; pending = true;
+            } else if (w[0] == "xcancelall" && w.size() == 1 && xexec) {
+                xexec->cancelAll(); pending_rets = "1"; pending = true;
+            } else if (w[0] == "xemit" && w.size() == 3 && vh::to_u64(w[1], n) && n >= 1 && n <= 1000 && (w[2] == "s" || w[2] == "f") && xexec) {
+                auto it = xlive.find((int)n);
+                XDummy *d = it == xlive.end() ? nullptr : dynamic_cast<XDummy*>(it->second);
+                if (d && d->state() == Action::State::kRunning) { d->emitFinish(w[2] == "s"); pending_rets = "1"; }
+                else pending_rets = "0";
+                pending = true;
+            } else if (w[0] == "xpass" && w.size() == 1 && xexec) {
+                pending_rets = "1"; pending = true;
+            } else std::cout << "bad-op\n";
+            return;
+        }
+        if (xexec) { std::cout << "bad-op\n"; return; }
         if (w[0] == "cfg" && w.size() == 2 && w[1].size() == 4 && root == nullptr &&
             w[1].find_first_not_of("01") == std::string::npos) { std::cout << "P cfg\n"; return; }
         if (w[0] == "tree") {
